@@ -115,6 +115,7 @@ def run(rec):
                     check_state(rec, pp, vp, 'from_product_state', dict(inp, state=idx), check_schmidt=False)
     singlets(rec, rng)
     covering(rec, rng, quick)
+    segments(rec, rng, quick)
     infinite(rec, rng, quick)
 
 
@@ -199,6 +200,56 @@ def covering(rec, rng, quick):
             p2 = psi.copy()
             p2.convert_form('A')
             check_state(rec, p2, ref, "from_product_mps_covering+convert_form('A')", inp, check_schmidt=False)
+
+
+def segments(rec, rng, quick):
+    """segment MPS (non-trivial singular values on the outer bonds): canonical_form_finite and form conversions keep the
+    segment wave function (up to the returned boundary transformations), its entropies and its recorded norm"""
+    import tenpy.linalg.np_conserved as npc
+
+    def dense_seg(p):
+        th = p.get_theta(0, p.L)
+        return th.itranspose(['vL'] + [f'p{i}' for i in range(p.L)] + ['vR'])
+    fams = [f for f in mpsgen.site_families() if not getattr(f[1], 'takes_L', False)]
+    for fname, fam in fams[:: (3 if quick else 1)]:
+        for k in range(2 if quick else 6):
+            L = 6
+            psi, v = mpsgen.random_mps(rng, fam, L)
+            psi.canonical_form()
+            first = int(rng.integers(1, 3))
+            last = int(rng.integers(first + 1, L - 1))
+            form = [None, 'A', 'B', 'C'][k % 4]
+            inp = {'family': fname, 'segment': [first, last], 'form_before': form}
+            rec.begin(f'C07 segment {inp}')
+            ok, seg = rec.guarded('extract_segment:exception', lambda: psi.extract_segment(first, last), inp)
+            rec.case(('segment', fname, k), True, sample=inp if k == 0 else None)
+            if not ok:
+                continue
+            if form is not None:
+                th0 = dense_seg(seg)
+                ok, _ = rec.guarded('segment.convert_form:exception', lambda: seg.convert_form(form), inp)
+                if ok:
+                    rec.check(npc.norm(dense_seg(seg) - th0) < 1e-9, 'segment.convert_form:state-changed', f'-> {form}', inp)
+            th_old = dense_seg(seg)
+            ent_old = seg.entanglement_entropy()
+            norm_old = seg.norm
+            ok, res = rec.guarded('segment.canonical_form_finite:exception', lambda: seg.canonical_form_finite(), inp)
+            if not ok:
+                continue
+            U_L, V_R = res
+            try:
+                seg.test_sanity()
+            except Exception as e:
+                rec.violation('segment.canonical_form_finite:sanity', str(e)[:200], inp)
+                continue
+            th_new = dense_seg(seg)
+            cmp_ = npc.tensordot(npc.tensordot(U_L, th_new, axes=['vR', 'vL']), V_R, axes=['vR', 'vL'])
+            cmp_.itranspose(th_old.get_leg_labels())
+            rec.check(npc.norm(cmp_ - th_old) < 1e-9, 'segment.canonical_form_finite:state-changed',
+                      f'|U_L theta_new V_R - theta_old| = {npc.norm(cmp_ - th_old)}', inp)
+            rec.check(np.allclose(seg.entanglement_entropy(), ent_old, atol=1e-8), 'segment.canonical_form_finite:entropies-changed', '', inp)
+            rec.check(abs(seg.norm - norm_old) < 1e-10, 'segment.canonical_form_finite:norm-changed', f'{norm_old} -> {seg.norm}', inp)
+            rec.check(np.max(np.abs(seg.norm_test())) < 1e-8, 'segment.canonical_form_finite:norm_test', str(seg.norm_test()), inp)
 
 
 def infinite(rec, rng, quick):
